@@ -200,6 +200,32 @@ def run(ck):
                  "expected": b.canon()})
             if len(ck.violations) >= 3:
                 break
+    # the scope follows the text, not the file: a stretch of statements moved into an included file (local spellings
+    # kept) assembles like the qualified single-file program
+    ic2, im2 = [], []
+    for i, (p, q, wp, lines, m) in enumerate(pairs):
+        if rng.random() > (0.5 if thorough else 0.25) or any(ns is None and any(l in t for l in LOCALS) for t, ns in lines):
+            continue
+        stm = [t for t, _ in lines]
+        # macro definitions stay in the root file (a cut inside the prelude is harmless, but keep it simple)
+        first = next((k for k, t in enumerate(stm) if not t.startswith(("@macro", "@defl gctr9"))), 0)
+        if len(stm) - first < 3:
+            continue
+        a0, b0 = sorted(rng.sample(range(first, len(stm) + 1), 2))
+        if a0 == b0:
+            continue
+        files = {"/w/main.asm": "\n".join(stm[:a0] + ['@include "part.inc"'] + stm[b0:]) + "\n", "/w/part.inc": "\n".join(stm[a0:b0]) + "\n"}
+        ic2.append(asm_case("z80", files=files, opts="syms")); im2.append((i, files))
+    r2 = [AsmResult(r) for r in run_cases(harness, ic2)]
+    ck.evaluations += len(ic2)
+    for (i, files), a2, c2 in zip(im2, r2, ic2):
+        b = impl[3 * i + 1]
+        ck.count("in-include:%s/%s" % (a2.kind, b.kind))
+        if a2.canon() != b.canon() or (a2.ok and asmk.impl_syms(a2) != asmk.impl_syms(b)):
+            ck.violation("local spellings with a stretch moved into an included file: %s, the qualified single-file program %s: %r" % (
+                a2.canon() + ((" " + (a2.msg or "").replace("\n", " ")[-70:]) if not a2.ok else ""), b.canon(), files),
+                {"mode": "asm", "arch": "z80", "files": files, "harness_case": c2, "expected": b.canon()})
+            break
     # independent scopes, directly
     t = "Ga:\n.aa:\n@db 1\nGb:\n.aa:\n@db 2\n@dw Ga.aa, Gb.aa\nGa2:\n@defn .aa, 7\n@db .aa, Ga2.aa\n"
     r = AsmResult(run_cases(harness, [asm_case("z80", text=t)], shards=1)[0])
